@@ -575,6 +575,18 @@ func WithAfterPublish(hook PublishHook) Option {
 // WithBeforePublishContext sets a context-aware hook that's called before publishing events
 func WithBeforePublishContext(hook PublishHookContext) Option {
 	return func(bus *EventBus) {
+		if bus.store != nil {
+			// A store is already configured (WithStore came first): keep
+			// persisting. Replacing the hook here would silently drop the
+			// persistence hook that WithStore installed in this slot.
+			bus.beforePublishCtx = func(ctx context.Context, eventType reflect.Type, event any) {
+				if hook != nil {
+					hook(ctx, eventType, event)
+				}
+				bus.persistEvent(ctx, eventType, event)
+			}
+			return
+		}
 		bus.beforePublishCtx = hook
 	}
 }
